@@ -21,7 +21,8 @@ for f in files:
 out=[]
 for x in ids:
     if x not in out and (x!="C15" or sys.argv[2]=="C15"): out.append(x)
-print(" ".join(out))
+import os
+print(" ".join(out[:int(os.environ.get("BENIGN_MAX", "99"))]))
 PY
 )
   echo "== $p-$k: $ids"
